@@ -84,6 +84,16 @@ def run(payload):
             if bad:
                 failures.append({"class": "simplify", "input": {"model": txt, "options": {"factor_and_simplify_equations": True}}, "observed": bad,
                                  "expected": "solution set preserved"})
+    for eqs, decls, want in ELIM_DER:
+        n += 1
+        nontrivial += 1
+        try:
+            txt, bad = judge_elim_derivative(eqs, decls, want)
+        except BaseException as e:  # noqa
+            txt, bad = eqs, "%s: %s" % (type(e).__name__, str(e)[:120])
+        if bad:
+            failures.append({"class": "simplify", "input": {"model": txt, "options": {"eliminable_variable_expression": "_.*", "expand_mx": True}}, "observed": bad,
+                             "expected": "der() of an eliminated variable replaced by the time derivative of its defining expression"})
     models = fixed + [(S.gen_model(rng, i)[0], "M%d" % i) for i in range(n_models)]
     for txt, name in models:
         for opts in S.option_sets(tier):
@@ -126,6 +136,45 @@ def judge_periodic(fn, k):
     return txt, None
 
 
+ELIM_DER = [
+    # (equations after `der(z) = 1;`, declarations, value of w along the trajectory as a function of (z, time))
+    ("_y = 3 * z; _x = 2 * _y; w = der(_x) + der(_y);", "Real _x; Real _y;", lambda z, t: 9.0),
+    ("_x = 2 * _y; _y = 3 * z; w = der(_x) + der(_y);", "Real _x; Real _y;", lambda z, t: 9.0),
+    ("_y = 3 * z; _x = 2 * _y; w = der(_x);", "Real _x; Real _y;", lambda z, t: 6.0),
+    ("_x = 2 * time + z; w = der(_x);", "Real _x;", lambda z, t: 3.0),
+    ("_y = 3 * z; _v = 2 * _y; _x = _v * z; w = der(_x);", "Real _x; Real _y; Real _v;", lambda z, t: 12.0 * z),
+    ("_x = p * z + p; w = der(_x);", "Real _x; parameter Real p = 2.5;", lambda z, t: 2.5),
+    ("_x = 2 * u + z; w = der(_x);", "Real _x; input Real u;", None),     # the rate of an input is not available: only a reported failure is right
+]
+
+
+def judge_elim_derivative(eqs, decls, want):
+    """differentiated eliminable variables: after simplify(eliminable_variable_expression) the residual must vanish on the trajectory
+    z' = 1 with w at its true value, and must NOT vanish with w off by one"""
+    txt = "model D Real z; Real w; %s equation der(z) = 1; %s end D;" % (decls, eqs)
+    m, o = S.build(txt, "D", {"eliminable_variable_expression": "_.*", "expand_mx": True})
+    try:
+        m.simplify(o)
+    except BaseException:  # noqa
+        return txt, None           # reported
+    if want is None:
+        return txt, "simplify accepted an eliminable differentiated variable defined through an input without reporting anything"
+    left = S.names_of(m.states) + S.names_of(m.alg_states)
+    if sorted(left) != ["w", "z"]:
+        return txt, "variables left after elimination: %s" % left
+    z0, t0 = 0.7, 0.3
+    env = {"time": t0, "z": z0, "der(z)": 1.0, "w": want(z0, t0), "u": 0.4, "p": 2.5}
+    for v in m.parameters:
+        env[v.symbol.name()] = 2.5
+    r = S.residual_at(m, env)
+    if np.max(np.abs(r)) > 1e-9:
+        return txt, "simplified residual at the true trajectory point (w = %r) is %s" % (env["w"], np.round(r, 6).tolist())
+    env["w"] += 1.0
+    if np.max(np.abs(S.residual_at(m, env))) < 1e-9:
+        return txt, "simplified residual no longer determines w"
+    return txt, None
+
+
 def nonaffine_witness():
     """x*x = y*y ; x - y = 2 has the unique solution (1, -1); detect_aliases records x = y"""
     txt = "model W Real x; Real y; equation x * x = y * y; x - y = 2; end W;"
@@ -152,7 +201,7 @@ def main():
     failures, n, nontrivial = run(payload)
     if payload.get("mode") == "bounded":
         print(json.dumps({"performed": True, "cases": n, "distinct_nontrivial": nontrivial, "failures": failures,
-                          "rule": "equations f(th - ph) = 0 for periodic and monotone f (sin, tan, sinh, tanh, abs, sqrt) at three solutions each under factor_and_simplify_equations; generated triangular-affine models (alias chains, signed aliases in both spellings, alias cycles with an odd number of negative links, constant assignments incl. literal-on-the-left, constant factors, eliminable _t variables, parameter expressions) x option combinations: recorded aliases/constants must hold in the exact original solution, the simplified residual must vanish there and still determine the remaining unknowns",
+                          "rule": "differentiated eliminable variables defined through earlier / later eliminated variables, time, parameters and inputs; equations f(th - ph) = 0 for periodic and monotone f (sin, tan, sinh, tanh, abs, sqrt) at three solutions each under factor_and_simplify_equations; generated triangular-affine models (alias chains, signed aliases in both spellings, alias cycles with an odd number of negative links, constant assignments incl. literal-on-the-left, constant factors, eliminable _t variables, parameter expressions) x option combinations: recorded aliases/constants must hold in the exact original solution, the simplified residual must vanish there and still determine the remaining unknowns",
                           "bound": "%d model/option pairs; models affine (solved exactly)" % n}))
     else:
         f = failures[0] if failures else None
